@@ -187,6 +187,11 @@ func diffOutcome(a, b parseOutcome) string {
 func c02Run(c *Ctx) {
 	r := c.R
 	k := c.K
+	if k%13 == 11 {
+		// the long spelling after the program renamed something between two parses on one parser
+		histCase(c, GenDecl(c.Sub("d"), c02Cfg()), []string{"rename-namespace", "rename-option", "delimiter"}, []string{"parse"})
+		return
+	}
 	if k%8 == 7 {
 		c02Cluster(c)
 		return
